@@ -145,6 +145,10 @@ def random_cases(seed, pool, k):
                     if "xval" in q:
                         q["by"] = q["idx"]
                         del q["xval"], q["xby"]
+        if r.random() < 0.2:
+            # the beacon node cannot answer the verifier's domain look-ups during this call: whatever the aggregator does
+            # then, it must not publish what is not group-valid
+            call["bn"] = "down"
         out.append([call])
     return out
 
